@@ -1,42 +1,33 @@
-//! Model of bumpalo::Bump.  `alloc_layout` hands out 8-aligned memory from one static,
-//! word-typed arena that is never reused or freed (the real arena frees on drop of the
-//! arena; jammdb keeps the arena for the life of the transaction).
+//! Model of bumpalo::Bump: `alloc_layout` returns fresh, 8-aligned, zeroed memory that is
+//! never freed (the real arena frees on drop of the arena; jammdb keeps the arena for the
+//! life of the transaction).
 //!
-//! Why word-typed and static: CBMC models a `malloc`ed block as a byte array, and viewing
-//! such a block as `#[repr(C)]` structs of u64 fields (what jammdb does with every page)
-//! makes the propositional encoding explode (measured: a 75-byte block + one
-//! `Page::write_node` runs out of memory at 10 GB; the same code over a `[u64; 32]`
-//! buffer decides in 24 s).
+//! Every allocation is its own heap object of a FIXED size (BLOCK_BYTES), whatever size was
+//! asked for: jammdb computes the size of a dirty page by folding over a slice iterator, and
+//! CBMC's symbolic execution does not fold that to a constant; a heap object of symbolic
+//! size makes every later access to the page an array-theory problem (measured:
+//! `tf.allocate(75)` + `write_node`: 12 s; `tf.allocate(n.size())` with the same value:
+//! out of memory at 10 GB).  Asking for more than BLOCK_BYTES is an assertion failure
+//! (outside the stated bound).
 //!
-//! Dropped: fresh memory is zero here (arbitrary in reality); arena capacity is 8 KiB
-//! (exceeding it is an assertion failure = outside the stated bound).
+//! Dropped: fresh memory is zero here (arbitrary in reality); block capacity 512 bytes.
 use std::alloc::Layout;
 use std::ptr::NonNull;
 
-pub const ARENA_WORDS: usize = 512;
-static mut ARENA: [u64; ARENA_WORDS] = [0; ARENA_WORDS];
-static mut NEXT: usize = 0;
+pub const BLOCK_BYTES: usize = 512;
 
 pub struct Bump {
-    _p: (),
+    pub allocated: std::cell::Cell<usize>,
 }
 impl Bump {
     pub fn new() -> Bump {
-        Bump { _p: () }
+        Bump { allocated: std::cell::Cell::new(0) }
     }
     pub fn alloc_layout(&self, layout: Layout) -> NonNull<u8> {
         assert!(layout.size() > 0 && layout.align() <= 8);
-        let words = (layout.size() + 7) / 8;
-        unsafe {
-            let start = NEXT;
-            assert!(start + words <= ARENA_WORDS, "bumpalo model: arena capacity exceeded (outside the stated bound)");
-            NEXT = start + words;
-            let base = std::ptr::addr_of_mut!(ARENA) as *mut u64;
-            NonNull::new_unchecked(base.add(start) as *mut u8)
-        }
+        assert!(layout.size() <= BLOCK_BYTES, "bumpalo model: allocation larger than 512 bytes (outside the stated bound)");
+        self.allocated.set(self.allocated.get() + layout.size());
+        let block: &'static mut [u64; BLOCK_BYTES / 8] = Box::leak(Box::new([0u64; BLOCK_BYTES / 8]));
+        unsafe { NonNull::new_unchecked(block.as_mut_ptr() as *mut u8) }
     }
-}
-/// harness-side: words handed out so far
-pub fn jv_arena_used() -> usize {
-    unsafe { NEXT }
 }
